@@ -246,6 +246,51 @@ pub fn generate(seed: u64, n: usize, thorough: bool, _corpus: Option<&str>) -> V
         tags.push(format!("contradiction:{}", sx::cmp(cmp)));
         cases.push(one(&gen_std::build(&s), tol, tags));
     }
+    // --- domain order != variable order.  `to_standard_form` must look every variable up BY NAME: models built with
+    // `new_from_parts` may list the domain in any order, and every COMPILED model does (the linearizer sorts the variable
+    // names, the domain stays in declaration order).  Positions and kinds are chosen so that a positional reading of the
+    // domain would split the wrong variable.
+    for i in 0..(if thorough { 800 } else { 120 }) {
+        let nv = 2 + r.below(3);
+        let mut kinds: Vec<VKind> = (0..nv).map(|_| *r.pick(&gen_std::VKINDS7)).collect();
+        kinds[0] = if i % 2 == 0 { VKind::Free } else { VKind::NonNeg };          // a free and a kept variable,
+        kinds[nv - 1] = if i % 2 == 0 { VKind::NonNeg } else { VKind::RealBoth };   // at the two ends
+        let rk: Vec<Comparison> = (0..r.below(3)).map(|_| *r.pick(&gen_std::RKINDS)).collect();
+        let opt = if r.chance(1, 2) { OptimizationType::Min } else { OptimizationType::Max };
+        let s = gen_std::spec(&mut r, &kinds, &rk, opt, DataClass::SmallInt);
+        let (o, t, off, c, v, d) = gen_std::build(&s).into_parts();
+        let mut entries: Vec<(String, DomainVariable)> = d.into_iter().collect();
+        if r.chance(1, 2) { entries.reverse(); } else { let k = 1 + r.below(nv - 1); entries.rotate_left(k); }
+        let d2: IndexMap<String, DomainVariable> = entries.into_iter().collect();
+        let m = LinearModel::new_from_parts(o, t, off, c, v, d2);
+        let mut tags = spec_tags(&s, "permuted-domain");
+        tags.push("domain:order-differs-from-variables".into());
+        cases.push(one(&m, tol, tags));
+    }
+    // compiled models (text -> parser -> linearizer): variables sorted by name, domain in declaration order
+    for _ in 0..(if thorough { 300 } else { 60 }) {
+        if let Some((m, src)) = crate::gen_lp::from_text(&mut r) {
+            if !crate::gen_lp::is_continuous(&m) { continue; }
+            let differs = m.variables().iter().zip(m.domain().keys()).any(|(a, b)| a != b);
+            let mut c = one(&m, tol, vec!["stream:compiled-from-text".into(),
+                if differs { "domain:order-differs-from-variables".into() } else { "domain:order-same".into() }]);
+            c.show = format!("{} <= compiled from: {}", c.show, src.replace('\n', " / "));
+            cases.push(c);
+        }
+    }
+    // --- models that already look like a standard form: only equality rows over plain non-negative variables, in
+    // BOTH directions (a `max` must still be recorded as a flipped minimisation) and as `solve` (must be rejected)
+    for i in 0..(if thorough { 300 } else { 60 }) {
+        let nv = 1 + r.below(3);
+        let kinds = vec![VKind::NonNeg; nv];
+        let rk = vec![Comparison::Equal; r.below(3)];
+        let opt = match i % 5 { 0 | 1 | 2 => OptimizationType::Max, 3 => OptimizationType::Min, _ => OptimizationType::Satisfy };
+        let mut s = gen_std::spec(&mut r, &kinds, &rk, opt, DataClass::SmallInt);
+        s.types = vec![VariableType::non_negative_real(); nv];   // exactly NonNegativeReal(0, inf)
+        if s.obj.iter().all(|c| *c == 0.0) { s.obj[0] = 1.0 + r.below(3) as f64; }
+        let mut tags = spec_tags(&s, "already-standard-form");
+        cases.push(one(&gen_std::build(&s), tol, std::mem::take(&mut tags)));
+    }
     malformed(&mut r, tol, &mut cases);
     cases
 }
